@@ -231,6 +231,9 @@ fn scan(t: &T, depth: u32, tr: &mut Traits) {
 
 fn classify(diff: &Diff, tr: &Traits, parse_failed: bool) -> (&'static str, String) {
     // attribute a mismatch to its most specific cause visible in the case
+    if parse_failed && tr.huge_real && diff.detail.contains("Invalid integer") {
+        return ("C09/real-roundtrip", "integral-real>=2^63-written-without-decimal-point".into());
+    }
     if diff.kind == "name" || parse_failed || diff.kind == "structure" {
         if let Some(h) = tr.hostile_name {
             return ("C09/name-roundtrip", h.to_string());
